@@ -73,6 +73,7 @@ def run(F, R, ctx):
     elision_veto_rule(F, R)
     quasiquote_shape_rule(F, R)
     definition_order_rule(F, R)
+    arity_elision_rule(F, R)
 
 
 # the walkers whose result decides how an assigned variable is compiled: they must see every sub-expression
@@ -735,6 +736,61 @@ def definition_order_rule(F, R):
                "application, i.e. before expressions and delayed definitions that precede it in the body — "
                "`(define (f) (define (g) 1) (display 1) (define x (begin (display 2) 1)) x)` prints 21" % line,
                fn.loc(line), sample=True)
+
+
+def arity_elision_rule(F, R):
+    R.rule("C01.n", "the run-time arity check of a call is dropped only where the compiler compared the counts: every "
+                    "construction of a CallKind::NoArity* (the call kinds that compile to the *NOARITY opcodes, whose handlers "
+                    "and native helpers trust the argument count) is dominated by a branch whose condition is computed from "
+                    "the call site's argument list (List.args) and a looked-up arity (a map lookup compared for equality). "
+                    "Otherwise a call with the wrong number of arguments to a function whose check was elided runs with a "
+                    "misaligned frame and answers silently — `(define (f a b) (if (> a 3) (list a b) (f (+ a 1) b 99)))` "
+                    "in a module answered (7 99)")
+    n = 0
+    for name, fn in sorted(F.fns.items()):
+        if not name.startswith("steel::compiler::"):
+            continue
+        aggs = [(i, e) for i, _, e in fn.events("agg") if e[1] == "CallKind" and e[2].startswith("NoArity")]
+        if not aggs or re.search(r"\{impl (Clone|Debug|PartialEq|Hash|Serialize|Deserialize)", name):
+            continue
+        dom = fn.dominators()
+        for i, e in aggs:
+            n += 1
+            ok = False
+            for sb in dom.get(i, ()):
+                blk = fn.blocks[sb]
+                if blk["k"] != "switch" or blk["on"] != "bool":
+                    continue
+                f0 = dict((v, t) for v, t in blk["targets"]).get("0")
+                if f0 is not None and i in fn.reachable_from([f0], avoid={sb}) and i not in fn.reachable_from([blk["otherwise"]], avoid={sb}):
+                    continue   # only the false side leads here: accept too (negated test)
+                before = [b for b in dom.get(sb, ())]
+                reads_args = lookup = compares = False
+                for b in before:
+                    for e2 in fn.blocks[b]["e"]:
+                        if e2[0] == "fld" and e2[1] == "List" and e2[2] == "args":
+                            reads_args = True
+                        if e2[0] == "closure" and e2[1] in F.fns:
+                            for _, ce in lib.family_events(F, F.fns[e2[1]]):
+                                if ce[0] == "fld" and ce[1] == "List" and ce[2] == "args":
+                                    reads_args = True
+                                if ce[0] == "binop" and ce[1] in ("Eq", "Ne") and ce[2] == "usize":
+                                    compares = True
+                            for _, cb in lib.family_calls(F, F.fns[e2[1]]):
+                                if re.search(r"HashMap<K,V,S[^}]*\}::get$", cb["callee"]):
+                                    lookup = True
+                        if e2[0] == "binop" and e2[1] in ("Eq", "Ne") and e2[2] == "usize":
+                            compares = True
+                    cb = fn.blocks[b]
+                    if cb["k"] == "call" and re.search(r"HashMap<K,V,S[^}]*\}::get$", cb["callee"]):
+                        lookup = True
+                if reads_args and lookup and compares:
+                    ok = True
+            R.inst("C01.n", "%s / CallKind::%s only after the counts were compared" % (fn.short(), e[2]), ok,
+                   "%s marks a call site %s (line %s) — its arity check is compiled away — without a dominating comparison of "
+                   "the call's argument count with the callee's arity: a wrong-arity call to such a function is not reported "
+                   "and runs with a misaligned frame" % (fn.short(), e[2], e[3]), fn.loc(e[3]), sample=True)
+    R.floor("C01.n", "constructions of CallKind::NoArity*", n, 3)
 
 
 def quasiquote_shape_rule(F, R):
